@@ -392,6 +392,16 @@ class World:
         if closure_frame is not None:
             clos = dict(closure_frame.closure or {})
             clos.update(closure_frame.env)
+        return self._apply_env(ex, con, fsrc, env, clos, node)
+
+    def apply_virtual(self, ex, con, env, node=None):
+        """apply an interface contract that has no body of its own (e.g. an attribute holding one of
+        several contracted functions): parameters are given by name"""
+        fs = _ModSrc(extract.module(con.file))
+        fs.qualname = con.qualname
+        return self._apply_env(ex, con, fs, dict(env), None, node)
+
+    def _apply_env(self, ex, con, fsrc, env, clos, node):
         fr = Frame(fsrc, env, contract=con, closure=clos)
         fr.is_spec = True
         cname = None
@@ -416,6 +426,9 @@ class World:
             self.ext.havoc_path(ex, fr, path)
         # result
         res = self.contract_result(ex, con, fr)
+        if any("fresh(result)" in cl for cl in returns.values()):
+            ex.created.add(id(res))        # the callee proved that its result is newly allocated
+            ex.keep.append(res)
         if con.result_fields and isinstance(res, VRec):
             for fname, expr in con.result_fields.items():
                 fv = ex.spec_eval(expr, fr, {})
